@@ -354,13 +354,113 @@ def _u_of(o, p):
     return U(_t(o), lo, hi)
 
 
+NORMALIZE = [True]
+NORMALIZE_MAX_SIZE = 200000
+
+
+def _var_bounds(name):
+    ctx = Ctx.cur
+    if ctx is not None and name in ctx.aux_bounds:
+        return ctx.aux_bounds[name]
+    try:
+        from vf.harness import Env
+        if Env.cur is not None and name in Env.cur.vars:
+            lo, hi = Env.cur.vars[name]
+            return (lo, hi - 1)
+    except Exception:
+        pass
+    return (None, None)
+
+
+def _atom_iv(e):
+    """interval of a monomial factor (variable, or anything else: unknown)."""
+    if z3.is_int_value(e):
+        v = e.as_long()
+        return (v, v)
+    if z3.is_const(e) and e.decl().kind() == z3.Z3_OP_UNINTERPRETED:
+        return _var_bounds(str(e))
+    if z3.is_app(e) and e.decl().kind() == z3.Z3_OP_MUL:
+        iv = (1, 1)
+        for c in e.children():
+            iv = _iv_mul(iv, _atom_iv(c))
+        return iv
+    if z3.is_app(e) and e.decl().kind() == z3.Z3_OP_ITE:
+        a, b = _atom_iv(e.arg(1)), _atom_iv(e.arg(2))
+        if None in a or None in b:
+            return (None, None)
+        return (min(a[0], b[0]), max(a[1], b[1]))
+    if z3.is_app(e) and e.decl().kind() == z3.Z3_OP_MOD and z3.is_int_value(e.arg(1)) and e.arg(1).as_long() > 0:
+        return (0, e.arg(1).as_long() - 1)
+    return (None, None)
+
+
+def _normalize_mod(u, p):
+    """(sum_i c_i * m_i) mod p  ==  (sum_i (c_i mod p) * m_i) mod p: reduce every coefficient of the sum-of-monomials form
+    to its symmetric representative modulo p and recompute the interval from the variable ranges.  Lagrange weights,
+    PRSS evaluation constants and resharing weights cancel here, before the solver sees them."""
+    if not NORMALIZE[0] or p < 3:
+        return u
+    t = u.t
+    try:
+        if len(t.sexpr()) > NORMALIZE_MAX_SIZE:
+            return u
+    except Exception:
+        return u
+    t = z3.simplify(t, som=True)
+    terms = t.children() if (z3.is_app(t) and t.decl().kind() == z3.Z3_OP_ADD) else [t]
+    half = p // 2
+    out = []
+    lo = hi = 0
+    ok = True
+    for m in terms:
+        coef, mono = 1, m
+        if z3.is_int_value(m):
+            coef, mono = m.as_long(), None
+        elif z3.is_app(m) and m.decl().kind() == z3.Z3_OP_MUL and z3.is_int_value(m.arg(0)):
+            coef = m.arg(0).as_long()
+            rest = m.children()[1:]
+            mono = rest[0] if len(rest) == 1 else z3.Product(*rest)
+        c = coef % p
+        if c > half:
+            c -= p
+        if c == 0:
+            continue
+        if mono is None:
+            out.append(z3.IntVal(c))
+            lo, hi = lo + c, hi + c
+            continue
+        out.append(mono if c == 1 else z3.IntVal(c) * mono)
+        iv = _atom_iv(mono)
+        if None in iv:
+            ok = False
+        elif ok:
+            a, b = sorted((c * iv[0], c * iv[1]))
+            lo, hi = lo + a, hi + b
+    nt = z3.IntVal(0) if not out else (out[0] if len(out) == 1 else z3.Sum(*out))
+    if ok:
+        return U(nt, lo, hi)
+    return U(nt, None, None)
+
+
 def _reduce(u, p):
-    if u.lo is not None and u.hi is not None:
-        if 0 <= u.lo and u.hi < p:
-            return u.t, u.lo, u.hi
-        if u.lo // p == u.hi // p:
-            q = u.lo // p
-            return u.t - q*p, u.lo - q*p, u.hi - q*p
+    def direct(u):
+        if u.lo is not None and u.hi is not None:
+            if 0 <= u.lo and u.hi < p:
+                return u.t, u.lo, u.hi
+            if u.lo // p == u.hi // p:
+                q = u.lo // p
+                return u.t - q*p, u.lo - q*p, u.hi - q*p
+        return None
+    r = direct(u)
+    if r is not None:
+        return r
+    if p > (1 << 16) and not z3.is_int_value(u.t):
+        nu = _normalize_mod(u, p)
+        if nu is not u:
+            r = direct(nu)
+            if r is not None:
+                return r
+            return nu.t % p, 0, p - 1
     return u.t % p, 0, p - 1
 
 
@@ -703,7 +803,8 @@ def _bits_of(x, n):
     """list of n bit terms of nonnegative x (SymInt or int)."""
     if isinstance(x, builtins.int):
         return [z3.IntVal((x >> j) & 1) for j in range(n)]
-    return [((x >> j) % 2).t for j in range(n)]
+    with no_fork():
+        return [_t((x >> j) % 2) for j in range(n)]
 
 
 def _bitop(s, o, op):
